@@ -67,6 +67,9 @@ func (s *Seq) Read(b []byte) (int, error) {
 	if len(b) == 0 {
 		return 0, nil
 	}
+	if s.cur >= s.end {
+		return 0, io.EOF
+	}
 	var n int
 	end := int(s.Record.position(s.end))
 	for s.cur < s.end {
